@@ -849,11 +849,17 @@ func (e *Exec) strSplit(s, sep *StrV, n int) Value {
 			rest = cstr((*rest.C)[i+len(*sep.C):])
 			continue
 		}
-		idx := "(str.indexof " + rest.T + " " + sep.T + " 0)"
-		head := e.nameValue(&StrV{T: "(str.substr " + rest.T + " 0 " + idx + ")"}, "sp").(*StrV)
-		tail := e.nameValue(&StrV{T: fmt.Sprintf("(str.substr %s (+ %s %d) (str.len %s))", rest.T, idx, len(*sep.C), rest.T)}, "sp").(*StrV)
-		parts = append(parts, head)
-		rest = tail
+		// first occurrence: rest = head ++ sep ++ tail with no occurrence of sep starting inside head
+		hn, tn := e.fresh("sph", "String"), e.fresh("spt", "String")
+		e.assume("(= " + rest.T + " (str.++ " + hn + " " + sep.T + " " + tn + "))")
+		pre := (*sep.C)[:len(*sep.C)-1]
+		if pre == "" {
+			e.assume("(not (str.contains " + hn + " " + sep.T + "))")
+		} else {
+			e.assume("(not (str.contains (str.++ " + hn + " " + smtStr(pre) + ") " + sep.T + "))")
+		}
+		parts = append(parts, &StrV{T: hn})
+		rest = &StrV{T: tn}
 	}
 	arr := &ArrayV{E: parts}
 	return &SliceV{O: e.newObj(arr, "split"), Len: cbv(uint64(len(parts)), 64), Cap: len(parts)}
